@@ -185,6 +185,20 @@ func vPolicy(windowType uint8) *Policy {
 }
 
 func vAdvance() {
+	if vScript != nil {
+		// scripted scenario: whole seconds, concrete (0, 1 or 3 s), so that the real
+		// time.Time arithmetic of the time-based window runs on concrete values
+		vAdvances++
+		switch vAdvances {
+		case 1: // between the failures and the next call: waitDurationInOpenState is symbolic
+			vSec += 3
+		case 2: // trials pending
+			vSec += int64(verifChoose("clock.gapSeconds.pending", 2))
+		default: // between the trials' completions
+			vSec += 3 * int64(verifChoose("clock.gapSeconds.betweenResults", 2))
+		}
+		return
+	}
 	if !vWallOnly {
 		n := verifInt("clock.mono", 0, 1<<42)
 		verifAssume(n >= vMono)
@@ -202,7 +216,10 @@ func vHist(windowType uint8) {
 	p := vPolicy(windowType)
 	// window sizes are concretised (slice lengths)
 	vWallOnly = verifBound("wallOnlyClock") == 1
-	if vWallOnly {
+	if vScript != nil {
+		vWallOnly = true
+		vSec, vNsec, vAdvances = 1000, 500000000, 0
+	} else if vWallOnly {
 		vSec, vNsec = verifInt("clock0.sec", 0, 1<<12), verifInt("clock0.nsec", 0, 999999999)
 	} else {
 		vMono = verifInt("clock0.mono", 0, 1<<42)
@@ -216,8 +233,17 @@ func vHist(windowType uint8) {
 	var tags [8]uint32
 	ntags := 0
 	steps := verifBound("steps")
+	if vScript != nil {
+		steps = len(vScript)
+	}
 	for i := 0; i < steps; i++ {
-		switch verifChoose("op", 3) {
+		op := 0
+		if vScript != nil {
+			op = vScript[i]
+		} else {
+			op = verifChoose("op", 3)
+		}
+		switch op {
 		case 0: // a call asks for admission
 			ok, tag := cb.AcquirePermission()
 			rok, rtag := ref.acquire()
@@ -238,7 +264,10 @@ func vHist(windowType uint8) {
 			if ntags == 0 {
 				verifAssume(false)
 			}
-			k := verifChoose("which", ntags)
+			k := 0 // scripted scenario: which of the pending calls completes is fixed
+			if vScript == nil {
+				k = verifChoose("which", ntags)
+			}
 			tag := tags[k]
 			// each admitted call completes once
 			tags[k] = tags[ntags-1]
@@ -259,6 +288,27 @@ func vHist(windowType uint8) {
 
 func verifC08_HistCount() { vHist(CountBased) }
 func verifC08_HistTime()  { vHist(TimeBased) }
+
+// vScript, when set, fixes the sequence of operations of vHist (0 admission, 1 completion,
+// 2 clock advance); everything else (policy, which call completes, outcome, duration, how far
+// the clock moves) stays symbolic.
+var vScript []int
+var vAdvances int
+
+// verifC08_HalfOpenTime: a TIME_BASED breaker through a whole half-open episode whose trials
+// complete at different instants (arbitrarily far apart): two calls are admitted and complete
+// (two failures open a breaker that needs two calls), the clock moves, two calls ask for
+// admission (the first one moves the breaker to half-open), the clock moves and a further call
+// asks while the trials are pending (surplus: rejected, and it reopens the breaker only when
+// maxWaitDurationInHalfOpenState is SET and has elapsed), and the trials complete with the clock
+// moving in between; then one more call asks. Implementation and reference automaton in
+// lock-step: the trials' results close or reopen the breaker however far apart they are
+// recorded (the half-open window is count based whatever the policy's type).
+func verifC08_HalfOpenTime() {
+	vScript = []int{0, 0, 1, 1, 2, 0, 0, 2, 0, 1, 2, 1, 0}
+	vHist(TimeBased)
+	vScript = nil
+}
 func verifC08_Conc() {
 	permitted := uint32(verifChoose("permittedInHalfOpen", 2) + 1)
 	p := &Policy{FailureRateThreshold: 50, SlowCallRateThreshold: 100, SlidingWindowType: CountBased, SlidingWindowSize: 2,
